@@ -309,7 +309,8 @@ fn phase_of(scenario: &str, n: u64) -> String {
 
 fn run_case(c: &CrashCase, obs: &mut Obs) -> Result<(), Failure> {
     let phase = if c.kind == "syscall" { phase_of(&c.scenario, c.n) } else { String::new() };
-    let d = Domain::new();
+    let mut d = Domain::new();
+    d.config.global.creation_timeout = core::time::Duration::from_millis(100);
     let r = run_case_in(&d, c, &phase, obs);
     d.cleanup();
     r
@@ -404,6 +405,13 @@ fn run_case_in(d: &Domain, c: &CrashCase, phase: &str, obs: &mut Obs) -> Result<
         if only_unlisted_node_remnants(&left) {
             fail!("leftover.node_died_before_monitor_token", "node directory/details/monitor context of a node that died before its monitoring token existed stay behind: {left:?}");
         }
+        {
+            use std::os::unix::fs::PermissionsExt;
+            let half_created = |l: &String| l.starts_with("/dev/shm/") && std::fs::metadata(l).map(|m| m.permissions().mode() & 0o400 == 0).unwrap_or(false);
+            if (phase == "port_create" || phase == "messages") && left.iter().all(half_created) {
+                fail!("leftover.half_created_dynamic_storage_of_dead_port", "the victim died while one of its ports was creating a shared-memory object (still in its write-only initialisation state); the dead-node cleanup cannot open it and leaves it behind: {left:?}");
+            }
+        }
         if phase == "service_drop" && left.iter().any(|l| l.ends_with(".service")) && left.iter().all(|l| l.starts_with("services/") || l.starts_with("/dev/shm/")) {
             fail!("leftover.service_orphaned_by_crash_after_service_tag_removal", "the victim died while dropping the last handle of a service: it removes its service tag first and the service's resources afterwards, so the dead-node cleanup (which walks the tags) no longer knows about the service and its resources stay for ever: {left:?}");
         }
@@ -424,7 +432,8 @@ fn run_case_in(d: &Domain, c: &CrashCase, phase: &str, obs: &mut Obs) -> Result<
 }
 
 fn reference_steps(scenario: &str) -> Result<Vec<vtrace::Step>, String> {
-    let d = Domain::new();
+    let mut d = Domain::new();
+    d.config.global.creation_timeout = core::time::Duration::from_millis(100);
     let survivor = setup_survivor(&d, scenario).map_err(|e| e.message)?;
     let r = vtrace::reference_run(&exe(), &child_args(&d, scenario), &[]);
     drop(survivor);
@@ -433,7 +442,8 @@ fn reference_steps(scenario: &str) -> Result<Vec<vtrace::Step>, String> {
 }
 
 fn atomic_count(scenario: &str) -> Result<u64, String> {
-    let d = Domain::new();
+    let mut d = Domain::new();
+    d.config.global.creation_timeout = core::time::Duration::from_millis(100);
     let survivor = setup_survivor(&d, scenario).map_err(|e| e.message)?;
     let r = vice::vcrash::run_atomic(&child_args(&d, scenario), None).map(|(_, n)| n);
     drop(survivor);
